@@ -111,11 +111,12 @@ def _workflows():
         ("sorting", dict(append_middleware=[mw.NormalizeFieldKeys(), mw.SortFieldsAlphabeticallyMiddleware()]), dict(prepend_middleware=[mw.SortBlocksByTypeAndKeyMiddleware()])),
         ("explicit stacks", dict(parse_stack=[mw.RemoveEnclosingMiddleware()]), dict(unparse_stack=[mw.AddEnclosingMiddleware(True, False, '"')])),
         ("empty additions", dict(append_middleware=[]), dict(prepend_middleware=[])),
+        ("tuples and iterators", dict(append_middleware=(mw.NormalizeFieldKeys(), mw.MonthIntMiddleware())), dict(prepend_middleware=iter([mw.MonthLongStringMiddleware()]))),
         ("same types as the default stack", dict(append_middleware=[mw.ResolveStringReferencesMiddleware(), mw.RemoveEnclosingMiddleware(), mw.RemoveEnclosingMiddleware()]), dict(prepend_middleware=[mw.AddEnclosingMiddleware(True, True, "{"), mw.AddEnclosingMiddleware(False, True, '"')])),
     ]
 
 
-WORKFLOWS = ["names", "months+latex", "sorting", "explicit stacks", "empty additions", "same types as the default stack"]
+WORKFLOWS = ["names", "months+latex", "sorting", "explicit stacks", "empty additions", "tuples and iterators", "same types as the default stack"]
 HISTORY_DOCS = [
     "@article{k, author = {Ada Lovelace and Turing, Alan}, title = {Caf\\'e {T}}, month = jan, year = 1990}\n",
     '@string{s = "x"}\n@book{b, editor = "Knuth, D. E.", publisher = s, month = 3}\n% c\n',
